@@ -614,6 +614,91 @@ impl<'a> VisitMut for Rules<'a> {
             }
             b.stmts = out;
         }
+        if self.ctx.on("R48") {
+            // R48c: `let [mut] X [: T] = A.into_iter().map(|c| BODY).collect::<Result<_, _>>()?;` (collect into a Result: elements in order, stop at
+            // the first Err, which the `?` then returns) -> push loop over the consumed vector with BODY inlined: its `?` leaves the FUNCTION
+            // with the error collect + `?` would have returned; afterwards X is the vector of payloads
+            let mut out: Vec<syn::Stmt> = Vec::with_capacity(b.stmts.len());
+            for st in b.stmts.drain(..) {
+                let mut rep: Option<Vec<syn::Stmt>> = None;
+                if let syn::Stmt::Local(l) = &st {
+                    let (xpat, xty): (syn::Pat, Option<syn::Type>) = match &l.pat { syn::Pat::Type(pt) => ((*pt.pat).clone(), Some((*pt.ty).clone())), p => (p.clone(), None) };
+                    if let (syn::Pat::Ident(_), Some(init)) = (&xpat, &l.init) {
+                        if let (None, syn::Expr::Try(tr)) = (&init.diverge, &*init.expr) {
+                            if let syn::Expr::MethodCall(col) = &*tr.expr {
+                                let tf = col.turbofish.as_ref().map(|t| norm(&t.args.to_token_stream().to_string())).unwrap_or_default();
+                                if col.method == "collect" && tf.starts_with("Result<") {
+                                    if let syn::Expr::MethodCall(map) = &*col.receiver {
+                                        if map.method == "map" && map.args.len() == 1 {
+                                            if let (syn::Expr::Closure(cl), syn::Expr::MethodCall(it)) = (&map.args[0], &*map.receiver) {
+                                                if it.method == "into_iter" && it.args.is_empty() && cl.inputs.len() == 1 {
+                                                    let a = &it.receiver;
+                                                    let pat = match &cl.inputs[0] { syn::Pat::Type(pt) => (*pt.pat).clone(), p => p.clone() };
+                                                    let body = &cl.body;
+                                                    let k = self.ctx.fresh();
+                                                    let oc = syn::Ident::new(&format!("vx_rc{}", k), proc_macro2::Span::call_site());
+                                                    let nn = syn::Ident::new(&format!("vx_n{}", k), proc_macro2::Span::call_site());
+                                                    let ii = syn::Ident::new(&format!("vx_i{}", k), proc_macro2::Span::call_site());
+                                                    let vty: syn::Type = xty.clone().unwrap_or_else(|| syn::parse_quote!(Vec<_>));
+                                                    rep = Some(vec![
+                                                        syn::parse_quote!(let mut #oc: #vty = Vec::new();),
+                                                        syn::parse_quote!(let #nn = #a.len();),
+                                                        syn::Stmt::Expr(syn::parse_quote!(for #ii in 0..#nn {
+                                                            let #pat = vx_vec_take(&#a, #ii);
+                                                            let vx_rc_item = match #body { Ok(vx_rc_v) => vx_rc_v, Err(vx_rc_e) => return Err(vx_rc_e) };
+                                                            #oc.push(vx_rc_item);
+                                                        }), None),
+                                                        syn::parse_quote!(let #xpat = #oc;),
+                                                    ]);
+                                                    self.ctx.used("R48");
+                                                }
+                                            }
+                                        }
+                                    }
+                                }
+                            }
+                        }
+                    }
+                }
+                match rep { Some(v) => out.extend(v), None => out.push(st) }
+            }
+            b.stmts = out;
+        }
+        if self.ctx.on("R56") {
+            // R56: statement `A.iter_mut().for_each(|c| E);` -> index loop: the element is taken out, E runs on it, it is written back at the
+            // same position (std definition of for_each over iter_mut: every element once, in order)
+            let mut out: Vec<syn::Stmt> = Vec::with_capacity(b.stmts.len());
+            for st in b.stmts.drain(..) {
+                let mut rep: Option<Vec<syn::Stmt>> = None;
+                if let syn::Stmt::Expr(syn::Expr::MethodCall(fe), Some(_)) = &st {
+                    if fe.method == "for_each" && fe.args.len() == 1 {
+                        if let (syn::Expr::Closure(cl), syn::Expr::MethodCall(it)) = (&fe.args[0], &*fe.receiver) {
+                            if it.method == "iter_mut" && it.args.is_empty() && cl.inputs.len() == 1 {
+                                if let syn::Pat::Ident(pid) = match &cl.inputs[0] { syn::Pat::Type(pt) => (*pt.pat).clone(), p => p.clone() } {
+                                    let a = &it.receiver;
+                                    let c = &pid.ident;
+                                    let body = &cl.body;
+                                    let k = self.ctx.fresh();
+                                    let nn = syn::Ident::new(&format!("vx_n{}", k), proc_macro2::Span::call_site());
+                                    let ii = syn::Ident::new(&format!("vx_i{}", k), proc_macro2::Span::call_site());
+                                    rep = Some(vec![
+                                        syn::parse_quote!(let #nn = #a.len();),
+                                        syn::Stmt::Expr(syn::parse_quote!(for #ii in 0..#nn {
+                                            let mut #c = vx_vec_take(&#a, #ii);
+                                            #body;
+                                            #a.set(#ii, #c);
+                                        }), None),
+                                    ]);
+                                    self.ctx.used("R56");
+                                }
+                            }
+                        }
+                    }
+                }
+                match rep { Some(v) => out.extend(v), None => out.push(st) }
+            }
+            b.stmts = out;
+        }
         if self.ctx.on("R44") {
             // R44: `panic!(..)` -> vx_panic() (a call that does not return; the message is dropped).  Partial correctness:
             // contracts say nothing about a call that panics, exactly as Rust's own semantics of `-> !`.
